@@ -135,9 +135,10 @@ Section Inv.
     | PInit2 => c_pend s = [] /\ p_ph p = PhInit /\ f_final (c_fs s) = None /\ f_temp (c_fs s) = None
     | PInit3 => c_pend s = [] /\ p_ph p = PhOpen /\ f_final (c_fs s) = None
     | PLoop | PSaveW _ _ | PSaveR _ | PRec _ | PCheck | PWait | PClose => p_ph p = PhOpen /\ f_final (c_fs s) = None
-    | PRen => p_ph p = PhClosing /\ f_final (c_fs s) = None /\
+    | PRen => p_ph p = PhClosing /\ f_final (c_fs s) = None /\ (p_failed p = true -> c_exc s = true) /\
               exists d, f_temp (c_fs s) = Some d /\ dlookup d FMeta = Some (CMeta (Some (mkMeta (c_rec s) true (c_exc s))))
-    | PEnd => exists d, f_final (c_fs s) = Some d /\ dlookup d FMeta = Some (CMeta (Some (mkMeta (c_rec s) true (c_exc s))))
+    | PEnd => (p_failed p = true -> c_exc s = true) /\
+              exists d, f_final (c_fs s) = Some d /\ dlookup d FMeta = Some (CMeta (Some (mkMeta (c_rec s) true (c_exc s))))
     | PAbort => True
     end.
 
@@ -780,6 +781,9 @@ Section Preservation.
       + cbn. apply Bool.orb_false_r.
       + unfold phase_rel. cbn. split; [reflexivity|].
         split; [rewrite (final_kept _ _ _ _ Ha); [exact Hfin | discriminate | discriminate]|].
+        split.
+        { rewrite Bool.orb_false_r, Hexc. intros Hpf. unfold closing_ok in Hg. rewrite Hpf in Hg. cbn in Hg.
+          apply Bool.andb_true_iff in Hg as [Hg _]. exact Hg. }
         cbn in Ha. unfold on_temp in Ha. destruct (f_temp (c_fs s)) as [d|]; [|discriminate].
         inversion Ha as [Hfs]. cbn. eexists. split; [reflexivity|].
         rewrite Hrec, Hexc. apply dlookup_dinsert_same.
@@ -794,7 +798,7 @@ Section Preservation.
   Proof.
     intros I Hpc. pose proof I as [B C]. unfold main_step. rewrite Hpc.
     pose proof (cp_phase _ _ _ _ _ C) as Hph. unfold phase_rel in Hph. rewrite Hpc in Hph.
-    destruct Hph as (Hph & Hfin & d & Htemp & Hmeta).
+    destruct Hph as (Hph & Hfin & Hfe & d & Htemp & Hmeta).
     assert (Hdone : forallb t_done (c_pend s) = true) by (apply (init_pend_done s p I); rewrite Hpc; reflexivity).
     destruct (do_op pl pc0 s ORenameDir) as [s' ok] eqn:Ed.
     destruct (main_event s p _ s' ok (fun oc => if did oc then PhDone else PhClosing)
@@ -807,7 +811,7 @@ Section Preservation.
       eapply (cpc_move s p s'); eauto; try (rewrite Hpc; cbn; try discriminate; auto; fail).
       + cbn. apply Bool.orb_false_r.
       + unfold phase_rel. cbn. cbn in Ha. rewrite Htemp, Hfin in Ha. inversion Ha as [Hfs]. cbn.
-        exists d. rewrite Hrec, Hexc. auto.
+        rewrite Bool.orb_false_r, Hexc. split; [exact Hfe|]. exists d. rewrite Hrec. auto.
       + discriminate.
       + rewrite Hdone. discriminate.
       + discriminate.
@@ -1455,4 +1459,769 @@ Section Preservation.
     destruct (terminal s); [exact I|].
     destruct sched as [|ch r]; apply IH; apply step_inv; exact I.
   Qed.
+
+  (* --- the initial state ------------------------------------------------------------------------ *)
+  Lemma init_cinv f0 :
+    fs_ok (p_expected pc0) f0 -> (f_final f0 <> None -> p_allow_rm pc0 = true) ->
+    cinv cfg inp pc0 (init_cst inp f0).
+  Proof.
+    intros Hok Hal. exists pst_init. split.
+    - constructor; cbn; auto; try discriminate; try contradiction.
+      + apply Inv_init. exact Hok.
+      + constructor.
+    - constructor; cbn; auto; try discriminate; try contradiction.
+      intros _ _. exists [], []. cbn. repeat split; auto; intros; contradiction.
+  Qed.
+
+  (* --- termination: every step of a non-terminal state decreases a measure ---------------------- *)
+  Definition task_rem (t : task) : nat := match t_st t with TNew => 2 | TWritten => 1 | _ => 0 end.
+  Fixpoint tasks_rem (l : list task) : nat :=
+    match l with [] => 0%nat | t :: r => (task_rem t + tasks_rem r)%nat end.
+  Definition pcw (x : pc) : nat :=
+    match x with
+    | PInit0 => 8 | PInit1 => 7 | PInit2 => 6 | PInit3 => 5
+    | PLoop => 4 | PSaveW _ _ => 8 | PSaveR _ => 7 | PRec _ => 6 | PCheck => 5
+    | PWait => 3 | PClose => 2 | PRen => 1 | PEnd | PAbort => 0
+    end%nat.
+  Definition mu (s : cst) : nat :=
+    (pcw (c_pc s) + 5 * length (c_todo s) + (if c_kill s then 0 else 5 * length (in_rem inp) + 1)
+     + tasks_rem (c_pend s))%nat.
+
+  Lemma tasks_rem_app l1 l2 : tasks_rem (l1 ++ l2) = (tasks_rem l1 + tasks_rem l2)%nat.
+  Proof. induction l1 as [|a l1 IH]; cbn; [reflexivity|]. rewrite IH. lia. Qed.
+
+  Lemma tasks_rem_filter l : tasks_rem (filter (fun t => negb (t_done t)) l) = tasks_rem l.
+  Proof.
+    induction l as [|a l IH]; cbn; [reflexivity|].
+    destruct (t_done a) eqn:E; cbn; rewrite IH; [|reflexivity].
+    unfold t_done in E. unfold task_rem. destruct (t_st a); try discriminate; reflexivity.
+  Qed.
+
+  Lemma tasks_rem_upd l j t t' :
+    nth_error l j = Some t -> (tasks_rem (upd_nth l j t') + task_rem t = tasks_rem l + task_rem t')%nat.
+  Proof.
+    revert j; induction l as [|a l IH]; intros j H; destruct j; cbn in *; try discriminate.
+    - inversion H; subst. lia.
+    - specialize (IH _ H). lia.
+  Qed.
+
+  Lemma do_op_shape s o s' ok :
+    do_op pl pc0 s o = (s', ok) ->
+    c_pc s' = c_pc s /\ c_todo s' = c_todo s /\ c_kill s' = c_kill s /\ c_pend s' = c_pend s.
+  Proof. intros Ed. doop Ed. auto. Qed.
+
+  Lemma handler_mu s : (4 <= pcw (c_pc s))%nat -> (mu (handler cfg inp s) < mu s)%nat.
+  Proof.
+    intros H. unfold handler, mu. destruct (c_kill s) eqn:Ek; cbn [set_pc c_pc c_todo c_kill c_pend pcw].
+    - rewrite ?Ek. lia.
+    - destruct (r_proc cfg); cbn [c_pc c_todo c_kill c_pend pcw]; rewrite ?Ek; lia.
+  Qed.
+
+  Lemma main_step_mu s : terminal s = false -> main_blocked s = false -> (mu (mstep s) < mu s)%nat.
+  Proof.
+    intros Ht Hb. unfold main_step. unfold terminal in Ht.
+    destruct (c_pc s) eqn:Hpc; try discriminate.
+    - destruct (f_final (c_fs s)).
+      + destruct (do_op pl pc0 s ORmFinal) as [s' ok] eqn:Ed. destruct (do_op_shape _ _ _ _ Ed) as (H1 & H2 & H3 & H4).
+        destruct ok; unfold mu; cbn [set_pc c_pc c_todo c_kill c_pend pcw]; rewrite H2, H3, H4, Hpc; cbn [pcw]; lia.
+      + unfold mu; cbn [set_pc c_pc c_todo c_kill c_pend pcw]; rewrite Hpc; cbn [pcw]; lia.
+    - destruct (f_temp (c_fs s)).
+      + destruct (do_op pl pc0 s ORmTemp) as [s' ok] eqn:Ed. destruct (do_op_shape _ _ _ _ Ed) as (H1 & H2 & H3 & H4).
+        destruct ok; unfold mu; cbn [set_pc c_pc c_todo c_kill c_pend pcw]; rewrite H2, H3, H4, Hpc; cbn [pcw]; lia.
+      + unfold mu; cbn [set_pc c_pc c_todo c_kill c_pend pcw]; rewrite Hpc; cbn [pcw]; lia.
+    - destruct (do_op pl pc0 s OMkTemp) as [s' ok] eqn:Ed. destruct (do_op_shape _ _ _ _ Ed) as (H1 & H2 & H3 & H4).
+      destruct ok; unfold mu; cbn [set_pc c_pc c_todo c_kill c_pend pcw]; rewrite H2, H3, H4, Hpc; cbn [pcw]; lia.
+    - destruct (do_op pl pc0 s (OWriteMeta (mkMeta [] false false))) as [s' ok] eqn:Ed.
+      destruct (do_op_shape _ _ _ _ Ed) as (H1 & H2 & H3 & H4).
+      destruct ok; unfold mu; cbn [set_pc c_pc c_todo c_kill c_pend pcw]; rewrite H2, H3, H4, Hpc; cbn [pcw]; lia.
+    - (* PLoop *)
+      destruct (negb (c_kill s) && match in_upfail inp with Some k => Nat.eqb k (c_deliv s) | None => false end).
+      + destruct (do_op pl pc0 s OUpExc) as [s' ok] eqn:Ed. destruct (do_op_shape _ _ _ _ Ed) as (H1 & H2 & H3 & H4).
+        assert (Hm : mu s' = mu s) by (unfold mu; rewrite H1, H2, H3, H4; reflexivity).
+        rewrite <- Hm. apply handler_mu. rewrite H1, Hpc. cbn. lia.
+      + destruct (c_todo s) as [|[n v] rest] eqn:Etd.
+        * destruct (c_kill s) eqn:Ek; [|destruct (r_proc cfg)];
+            unfold mu; cbn [set_pc c_pc c_todo c_kill c_pend pcw]; rewrite Hpc, Etd, ?Ek; cbn [pcw length]; lia.
+        * destruct (n =? 0); [|destruct (is_async cfg && negb (c_kill s))];
+            unfold mu; cbn [set_pc set_pend c_pc c_todo c_kill c_pend pcw]; rewrite Hpc, Etd, ?tasks_rem_app;
+            cbn [pcw length tasks_rem task_rem t_st]; lia.
+    - destruct (do_op pl pc0 s (OWriteTmp (c_i s) v)) as [s' ok] eqn:Ed. destruct (do_op_shape _ _ _ _ Ed) as (H1 & H2 & H3 & H4).
+      destruct ok.
+      + unfold mu; cbn [set_pc c_pc c_todo c_kill c_pend pcw]; rewrite H2, H3, H4, Hpc; cbn [pcw]; lia.
+      + assert (Hm : mu s' = mu s) by (unfold mu; rewrite H1, H2, H3, H4; reflexivity).
+        rewrite <- Hm. apply handler_mu. rewrite H1, Hpc. cbn. lia.
+    - destruct (do_op pl pc0 s (ORenameChunk (c_i s))) as [s' ok] eqn:Ed. destruct (do_op_shape _ _ _ _ Ed) as (H1 & H2 & H3 & H4).
+      destruct ok.
+      + unfold mu; cbn [set_pc c_pc c_todo c_kill c_pend pcw]; rewrite H2, H3, H4, Hpc; cbn [pcw]; lia.
+      + assert (Hm : mu s' = mu s) by (unfold mu; rewrite H1, H2, H3, H4; reflexivity).
+        rewrite <- Hm. apply handler_mu. rewrite H1, Hpc. cbn. lia.
+    - (* PRec *)
+      match goal with |- context [do_op pl pc0 ?s1 ?o] => destruct (do_op pl pc0 s1 o) as [s' ok] eqn:Ed end.
+      destruct (do_op_shape _ _ _ _ Ed) as (H1 & H2 & H3 & H4). cbn in H1, H2, H3, H4.
+      destruct ok.
+      + unfold mu; cbn [c_pc c_todo c_kill c_pend]; rewrite H2, H3, H4, Hpc.
+        unfold after_rec. destruct (r_proc cfg); [|rewrite H3; destruct (c_kill s)]; cbn [pcw]; lia.
+      + assert (Hm : mu s' = mu s) by (unfold mu; rewrite H1, H2, H3, H4, Hpc; reflexivity).
+        rewrite <- Hm. apply handler_mu. rewrite H1. cbn. lia.
+    - (* PCheck *)
+      assert (Hf : (mu (set_pc (set_pend s (filter (fun t => negb (t_done t)) (c_pend s))) PLoop) < mu s)%nat).
+      { unfold mu; cbn [set_pc set_pend c_pc c_todo c_kill c_pend pcw]. rewrite tasks_rem_filter, Hpc. cbn [pcw]. lia. }
+      destruct (r_var cfg); [exact Hf|]. destruct (existsb t_failed (c_pend s)); [|exact Hf].
+      apply handler_mu. rewrite Hpc. cbn. lia.
+    - (* PWait: not blocked, so every pending write is done *)
+      unfold main_blocked in Hb. rewrite Hpc in Hb. apply Bool.negb_false_iff in Hb. rewrite Hb.
+      destruct (r_var cfg); [|destruct (existsb t_failed (c_pend s))];
+        unfold mu; cbn [set_pc c_pc c_todo c_kill c_pend pcw]; rewrite Hpc; cbn [pcw]; lia.
+    - match goal with |- context [do_op pl pc0 s ?o] => destruct (do_op pl pc0 s o) as [s' ok] eqn:Ed end.
+      destruct (do_op_shape _ _ _ _ Ed) as (H1 & H2 & H3 & H4).
+      destruct ok; unfold mu; cbn [set_pc c_pc c_todo c_kill c_pend pcw]; rewrite H2, H3, H4, Hpc; cbn [pcw]; lia.
+    - destruct (do_op pl pc0 s ORenameDir) as [s' ok] eqn:Ed. destruct (do_op_shape _ _ _ _ Ed) as (H1 & H2 & H3 & H4).
+      destruct ok; unfold mu; cbn [set_pc c_pc c_todo c_kill c_pend pcw]; rewrite H2, H3, H4, Hpc; cbn [pcw]; lia.
+  Qed.
+
+  Lemma work_step_mu s j t : nth_error (c_pend s) j = Some t -> t_done t = false -> (mu (wstep s j) < mu s)%nat.
+  Proof.
+    intros Hn Hd. unfold work_step. rewrite Hn. unfold t_done in Hd.
+    destruct (t_st t) eqn:Est; try discriminate.
+    - destruct (do_op pl pc0 s (OWriteTmp (t_i t) (t_v t))) as [s' ok] eqn:Ed.
+      destruct (do_op_shape _ _ _ _ Ed) as (H1 & H2 & H3 & H4). rewrite H4.
+      pose proof (tasks_rem_upd (c_pend s) j t (mkTask (t_i t) (t_v t) (if ok then TWritten else TFail)) Hn) as Hu.
+      unfold mu; cbn [set_pend c_pc c_todo c_kill c_pend]. rewrite H1, H2, H3.
+      unfold task_rem in Hu. cbn [t_st] in Hu. rewrite Est in Hu. destruct ok; lia.
+    - destruct (do_op pl pc0 s (ORenameChunk (t_i t))) as [s' ok] eqn:Ed.
+      destruct (do_op_shape _ _ _ _ Ed) as (H1 & H2 & H3 & H4). rewrite H4.
+      pose proof (tasks_rem_upd (c_pend s) j t (mkTask (t_i t) (t_v t) (if ok then TOk else TFail)) Hn) as Hu.
+      unfold mu; cbn [set_pend c_pc c_todo c_kill c_pend]. rewrite H1, H2, H3.
+      unfold task_rem in Hu. cbn [t_st] in Hu. rewrite Est in Hu. destruct ok; lia.
+  Qed.
+
+  Lemma first_undone_some l k : forallb t_done l = false -> first_undone l k <> None.
+  Proof.
+    revert k; induction l as [|a l IH]; intros k H; cbn in *; [discriminate|].
+    destruct (t_done a); [apply IH; exact H | discriminate].
+  Qed.
+
+  Lemma step_mu s ch : terminal s = false -> (mu (step cfg inp pl pc0 s ch) < mu s)%nat.
+  Proof.
+    intros Ht. unfold step.
+    assert (Hfb : (mu (if main_blocked s
+                       then match first_undone (c_pend s) 0 with Some j => wstep s j | None => mstep s end
+                       else mstep s) < mu s)%nat).
+    { destruct (main_blocked s) eqn:Hb; [|apply main_step_mu; auto].
+      destruct (first_undone (c_pend s) 0) as [j|] eqn:Ef.
+      - destruct (first_undone_spec _ _ _ Ef) as (t & Hn & Hd & _). rewrite Nat.sub_0_r in Hn.
+        eapply work_step_mu; eauto.
+      - exfalso. unfold main_blocked in Hb. destruct (c_pc s); try discriminate.
+        apply Bool.negb_true_iff in Hb. apply (first_undone_some _ 0%nat Hb Ef). }
+    destruct ch as [j|]; [|exact Hfb].
+    destruct (nth_error (c_pend s) j) as [t|] eqn:Hn; [|exact Hfb].
+    destruct (t_done t) eqn:Hd; [exact Hfb | eapply work_step_mu; eauto].
+  Qed.
+
+  Lemma run_terminates fuel : forall sched s, (mu s <= fuel)%nat -> terminal (run cfg inp pl pc0 fuel sched s) = true.
+  Proof.
+    induction fuel as [|fuel IH]; intros sched s H; cbn [run].
+    - destruct (terminal s) eqn:Ht; [reflexivity|].
+      exfalso. unfold mu in H. unfold terminal in Ht. destruct (c_pc s); try discriminate; cbn [pcw] in H; lia.
+    - destruct (terminal s) eqn:Ht; [exact Ht|].
+      destruct sched as [|ch r]; apply IH; pose proof (step_mu s) as Hs.
+      + specialize (Hs None Ht). lia.
+      + specialize (Hs ch Ht). lia.
+  Qed.
+
+  (* --- what the invariant says about a terminal state ------------------------------------------- *)
+  Lemma terminal_facts s : cinv cfg inp pc0 s -> terminal s = true ->
+    exists p, c_mon s = Some p /\ fs_ok (p_expected pc0) (c_fs s) /\
+      (p_failed p = true -> c_pc s = PAbort \/ c_exc s = true) /\
+      (c_pc s = PEnd -> c_exc s = false -> visible (c_fs s) = true).
+  Proof.
+    intros [p [B C]] Ht. exists p. split; [apply (cb_mon _ _ _ _ B)|].
+    split; [apply (proj1 (cb_inv _ _ _ _ B))|].
+    pose proof (cp_phase _ _ _ _ _ C) as Hph. unfold phase_rel in Hph.
+    unfold terminal in Ht. destruct (c_pc s) eqn:Hpc; try discriminate.
+    - destruct Hph as (Hfe & d & Hd & Hm). split; [intros H; right; auto|].
+      intros _ He. unfold visible, find, meta_of. rewrite Hd, Hm, He. reflexivity.
+    - split; [intros _; left; reflexivity | discriminate].
+  Qed.
+
+  (* --- without faults nothing fails ------------------------------------------------------------- *)
+  Definition nofail (s : cst) : Prop :=
+    c_exc s = false /\ c_pc s <> PAbort /\ existsb t_failed (c_pend s) = false /\
+    forall p, c_mon s = Some p -> p_failed p = false.
+
+  Lemma pstep_failed_done p o p' : pstep pc0 p (o, Done) = Some p' -> o <> OUpExc -> p_failed p' = p_failed p.
+  Proof.
+    unfold pstep. intros H Hne. destruct o; try contradiction;
+      repeat match type of H with
+             | (if ?b then _ else _) = Some _ => destruct b; try discriminate H
+             end; inversion H; subst; cbn; apply Bool.orb_false_r.
+  Qed.
+
+  Hypothesis Hnf : pl = no_faults.
+  Hypothesis Hnup : in_upfail inp = None.
+
+  (* an operation the file system accepts succeeds, and the monitor's failure flag stays down *)
+  Lemma nf_do_op s o s' ok p :
+    c_mon s = Some p -> p_failed p = false -> o <> OUpExc ->
+    apply_done (c_fs s) o <> None ->
+    do_op pl pc0 s o = (s', ok) ->
+    ok = true /\ c_exc s' = c_exc s /\ c_pend s' = c_pend s /\ c_kill s' = c_kill s /\
+    forall p', c_mon s' = Some p' -> p_failed p' = false.
+  Proof.
+    intros Hm Hpf Hne Happ Ed. doop Ed.
+    assert (ok = true) as -> by (apply Hok3; [rewrite Hnf; reflexivity | exact Happ]).
+    repeat split; auto. intros p' Hp'. rewrite Hm in Hmon. rewrite Hmon in Hp'.
+    rewrite (Hok1 eq_refl) in Hp'. rewrite (pstep_failed_done _ _ _ Hp' Hne). exact Hpf.
+  Qed.
+
+  Lemma temp_exists s p : cinvp s p -> p_ph p = PhOpen -> exists d, f_temp (c_fs s) = Some d /\ files_ok d FTmp (p_tmp p).
+  Proof.
+    intros [B _] Hph. destruct (cb_inv _ _ _ _ B) as [_ Hi]. rewrite Hph in Hi.
+    destruct Hi as (d & Hd & Ht & _). eauto.
+  Qed.
+
+  Ltac nf_finish Hx :=
+    destruct Hx as (-> & Hexc' & Hpend' & Hkill' & Hp');
+    repeat split; cbn [set_pc c_pc c_exc c_pend c_mon]; rewrite ?Hexc', ?Hpend'; auto; try discriminate.
+
+  Lemma main_step_nf s p : cinvp s p -> nofail s -> nofail (mstep s).
+  Proof.
+    intros I (He & Hna & Hnft & Hpf). pose proof I as [B C].
+    pose proof (cb_mon _ _ _ _ B) as Hm. pose proof (Hpf p Hm) as Hpf0.
+    pose proof (cp_phase _ _ _ _ _ C) as Hph. unfold phase_rel in Hph.
+    assert (Hsame : nofail s) by (repeat split; auto).
+    unfold main_step. destruct (c_pc s) eqn:Hpc.
+    - destruct Hph as (_ & Hph & _). destruct (f_final (c_fs s)) eqn:Ef.
+      + destruct (do_op pl pc0 s ORmFinal) as [s' ok] eqn:Ed.
+        assert (Hx := nf_do_op s ORmFinal s' ok p Hm Hpf0 ltac:(discriminate) ltac:(cbn; rewrite Ef; discriminate) Ed).
+        nf_finish Hx.
+      + repeat split; cbn; auto; discriminate.
+    - destruct Hph as (_ & Hph & _). destruct (f_temp (c_fs s)) eqn:Ef.
+      + destruct (do_op pl pc0 s ORmTemp) as [s' ok] eqn:Ed.
+        assert (Hx := nf_do_op s ORmTemp s' ok p Hm Hpf0 ltac:(discriminate) ltac:(cbn; rewrite Ef; discriminate) Ed).
+        nf_finish Hx.
+      + repeat split; cbn; auto; discriminate.
+    - destruct Hph as (_ & Hph & _ & Htemp).
+      destruct (do_op pl pc0 s OMkTemp) as [s' ok] eqn:Ed.
+      assert (Hx := nf_do_op s OMkTemp s' ok p Hm Hpf0 ltac:(discriminate) ltac:(cbn; rewrite Htemp; discriminate) Ed).
+      nf_finish Hx.
+    - destruct Hph as (_ & Hph & _). destruct (temp_exists s p I Hph) as (d & Hd & _).
+      destruct (do_op pl pc0 s (OWriteMeta (mkMeta [] false false))) as [s' ok] eqn:Ed.
+      assert (Hx := nf_do_op s (OWriteMeta (mkMeta [] false false)) s' ok p Hm Hpf0 ltac:(discriminate)
+                      ltac:(cbn; unfold on_temp; rewrite Hd; discriminate) Ed).
+      nf_finish Hx.
+    - (* PLoop *)
+      rewrite Hnup, Bool.andb_false_r.
+      destruct (c_todo s) as [|[n v] rest].
+      + destruct (c_kill s); [|destruct (r_proc cfg)]; repeat split; cbn; auto; discriminate.
+      + destruct (n =? 0); [|destruct (is_async cfg && negb (c_kill s))];
+          repeat split; cbn [set_pc set_pend c_pc c_exc c_pend c_mon]; auto; try discriminate.
+        rewrite existsb_app_single; [exact Hnft | reflexivity].
+    - destruct Hph as (Hph & _). destruct (temp_exists s p I Hph) as (d & Hd & _).
+      destruct (do_op pl pc0 s (OWriteTmp (c_i s) v)) as [s' ok] eqn:Ed.
+      assert (Hx := nf_do_op s (OWriteTmp (c_i s) v) s' ok p Hm Hpf0 ltac:(discriminate)
+                      ltac:(cbn; unfold on_temp; rewrite Hd; discriminate) Ed).
+      nf_finish Hx.
+    - destruct Hph as (Hph & _). destruct (temp_exists s p I Hph) as (d & Hd & Hft).
+      destruct (cp_data _ _ _ _ _ C He ltac:(rewrite Hpc; discriminate)) as (dn & cur & _ & _ & Hc & _).
+      unfold cur_ok in Hc. rewrite Hpc in Hc. destruct Hc as (v & _ & _ & Hl).
+      destruct (do_op pl pc0 s (ORenameChunk (c_i s))) as [s' ok] eqn:Ed.
+      assert (Hx := nf_do_op s (ORenameChunk (c_i s)) s' ok p Hm Hpf0 ltac:(discriminate)
+                      ltac:(cbn; unfold on_temp; rewrite Hd, (Hft _ _ Hl); discriminate) Ed).
+      nf_finish Hx.
+    - (* PRec *)
+      destruct Hph as (Hph & _). destruct (temp_exists s p I Hph) as (d & Hd & _).
+      match goal with |- context [do_op pl pc0 ?s1 ?o] => destruct (do_op pl pc0 s1 o) as [s' ok] eqn:Ed end.
+      match type of Ed with do_op _ _ ?s1 ?o = _ =>
+        assert (Hx := nf_do_op s1 o s' ok p Hm Hpf0 ltac:(discriminate)
+                        ltac:(cbn; unfold on_temp; rewrite Hd; discriminate) Ed) end.
+      destruct Hx as (-> & Hexc' & Hpend' & Hkill' & Hp'). cbn in Hexc', Hpend', Hkill'.
+      repeat split; cbn [c_pc c_exc c_pend c_mon]; rewrite ?Hexc', ?Hpend'; auto.
+      unfold after_rec. destruct (r_proc cfg); [|destruct (c_kill s')]; discriminate.
+    - (* PCheck *)
+      rewrite Hnft. destruct (r_var cfg);
+        repeat split; cbn [set_pc set_pend c_pc c_exc c_pend c_mon]; auto; try discriminate;
+        apply existsb_filter_false; exact Hnft.
+    - (* PWait *)
+      destruct (forallb t_done (c_pend s)); [|exact Hsame].
+      rewrite Hnft. destruct (r_var cfg); repeat split; cbn; auto; discriminate.
+    - destruct Hph as (Hph & _). destruct (temp_exists s p I Hph) as (d & Hd & _).
+      match goal with |- context [do_op pl pc0 s ?o] => destruct (do_op pl pc0 s o) as [s' ok] eqn:Ed end.
+      match type of Ed with do_op _ _ _ ?o = _ =>
+        assert (Hx := nf_do_op s o s' ok p Hm Hpf0 ltac:(discriminate)
+                        ltac:(cbn; unfold on_temp; rewrite Hd; discriminate) Ed) end.
+      nf_finish Hx.
+    - destruct Hph as (_ & Hfin & _ & d & Hd & _).
+      destruct (do_op pl pc0 s ORenameDir) as [s' ok] eqn:Ed.
+      assert (Hx := nf_do_op s ORenameDir s' ok p Hm Hpf0 ltac:(discriminate)
+                      ltac:(cbn; rewrite Hd, Hfin; discriminate) Ed).
+      nf_finish Hx.
+    - exact Hsame.
+    - exact Hsame.
+  Qed.
+
+  Lemma work_step_nf s p j : cinvp s p -> nofail s -> nofail (wstep s j).
+  Proof.
+    intros I (He & Hna & Hnft & Hpf). pose proof I as [B C].
+    pose proof (cb_mon _ _ _ _ B) as Hm. pose proof (Hpf p Hm) as Hpf0.
+    unfold work_step. destruct (nth_error (c_pend s) j) as [t|] eqn:Hn; [|repeat split; auto].
+    pose proof (nth_error_In _ _ Hn) as Hin.
+    pose proof (cb_tasks _ _ _ _ B) as HT. rewrite Forall_forall in HT. specialize (HT t Hin).
+    assert (Hnf_t : t_failed t = false) by (apply (existsb_false_in _ _ Hnft t Hin)).
+    destruct (t_st t) eqn:Est; try (repeat split; auto; fail).
+    - assert (Hd : t_done t = false) by (unfold t_done; rewrite Est; reflexivity).
+      destruct (undone_open s p t I Hin Hd) as (_ & _ & Hph & _).
+      destruct (temp_exists s p I Hph) as (d & Hd' & _).
+      destruct (do_op pl pc0 s (OWriteTmp (t_i t) (t_v t))) as [s' ok] eqn:Ed.
+      assert (Hx := nf_do_op s (OWriteTmp (t_i t) (t_v t)) s' ok p Hm Hpf0 ltac:(discriminate)
+                      ltac:(cbn; unfold on_temp; rewrite Hd'; discriminate) Ed).
+      destruct Hx as (-> & Hexc' & Hpend' & Hkill' & Hp').
+      repeat split; cbn [set_pend c_pc c_exc c_pend c_mon]; rewrite ?Hexc', ?Hpend'; auto.
+      + destruct (do_op_shape _ _ _ _ Ed) as (H1 & _). rewrite H1. exact Hna.
+      + rewrite (existsb_upd_nth t_failed _ j t _ Hn Hnf_t), Hnft. reflexivity.
+    - assert (Hd : t_done t = false) by (unfold t_done; rewrite Est; reflexivity).
+      destruct (undone_open s p t I Hin Hd) as (_ & _ & Hph & _).
+      destruct (temp_exists s p I Hph) as (d & Hd' & Hft).
+      unfold task_inv in HT. rewrite Est in HT.
+      destruct (do_op pl pc0 s (ORenameChunk (t_i t))) as [s' ok] eqn:Ed.
+      assert (Hx := nf_do_op s (ORenameChunk (t_i t)) s' ok p Hm Hpf0 ltac:(discriminate)
+                      ltac:(cbn; unfold on_temp; rewrite Hd', (Hft _ _ HT); discriminate) Ed).
+      destruct Hx as (-> & Hexc' & Hpend' & Hkill' & Hp').
+      repeat split; cbn [set_pend c_pc c_exc c_pend c_mon]; rewrite ?Hexc', ?Hpend'; auto.
+      + destruct (do_op_shape _ _ _ _ Ed) as (H1 & _). rewrite H1. exact Hna.
+      + rewrite (existsb_upd_nth t_failed _ j t _ Hn Hnf_t), Hnft. reflexivity.
+  Qed.
+
+  Lemma run_nf fuel : forall sched s, cinv cfg inp pc0 s -> nofail s -> nofail (run cfg inp pl pc0 fuel sched s).
+  Proof.
+    induction fuel as [|fuel IH]; intros sched s I N; cbn [run]; [exact N|].
+    destruct (terminal s); [exact N|].
+    assert (Hstep : forall ch, nofail (step cfg inp pl pc0 s ch)).
+    { intros ch. destruct I as [p I]. unfold step.
+      assert (Hfb : nofail (if main_blocked s
+                            then match first_undone (c_pend s) 0 with Some j => wstep s j | None => mstep s end
+                            else mstep s)).
+      { destruct (main_blocked s); [|apply (main_step_nf s p I N)].
+        destruct (first_undone (c_pend s) 0); [apply (work_step_nf s p _ I N) | apply (main_step_nf s p I N)]. }
+      destruct ch as [j|]; [|exact Hfb].
+      destruct (nth_error (c_pend s) j) as [t|]; [|exact Hfb].
+      destruct (t_done t); [exact Hfb | apply (work_step_nf s p _ I N)]. }
+    destruct sched as [|ch r]; apply IH; auto using step_inv.
+  Qed.
 End Preservation.
+
+(* ------------------------------------------------------------------------------------------ *)
+(* the monitor is the protocol automaton run over the recorded trace                          *)
+(* ------------------------------------------------------------------------------------------ *)
+
+Definition ev_fail (ev : event) : bool :=
+  is_fail (snd ev) || match fst ev with OUpExc => true | _ => false end.
+
+Lemma pstep_failed c s ev s' : pstep c s ev = Some s' -> p_failed s' = p_failed s || ev_fail ev.
+Proof.
+  destruct ev as [o oc]. unfold pstep, ev_fail. cbn [fst snd]. intros H.
+  destruct o;
+    repeat match type of H with
+           | (if ?b then _ else _) = Some _ => destruct b; try discriminate H
+           end; inversion H; subst; cbn [p_failed];
+    rewrite ?Bool.orb_false_r, ?Bool.orb_true_r; try reflexivity.
+  destruct (did oc); reflexivity.
+Qed.
+
+Lemma prun_failed c tr : forall s s', prun c s tr = Some s' -> p_failed s' = p_failed s || existsb ev_fail tr.
+Proof.
+  induction tr as [|ev tr IH]; intros s s' H; cbn in H.
+  - inversion H; subst. cbn. rewrite Bool.orb_false_r. reflexivity.
+  - destruct (pstep c s ev) as [s1|] eqn:E; [|discriminate].
+    rewrite (IH _ _ H), (pstep_failed _ _ _ _ E). cbn. rewrite Bool.orb_assoc. reflexivity.
+Qed.
+
+Section Monitor.
+  Variable cfg : rcfg.
+  Variable inp : input.
+  Variable pl : plan.
+  Variable pc0 : pcfg.
+
+  Definition mon_ok (s : cst) : Prop := c_mon s = prun pc0 pst_init (rev (c_tr s)).
+
+  Lemma mon_ok_ext s1 s2 : c_tr s2 = c_tr s1 -> c_mon s2 = c_mon s1 -> mon_ok s1 -> mon_ok s2.
+  Proof. unfold mon_ok. intros -> ->. auto. Qed.
+
+  Lemma do_op_mon s o s' ok : do_op pl pc0 s o = (s', ok) -> mon_ok s -> mon_ok s'.
+  Proof.
+    intros Ed H.
+    destruct (do_op_spec _ _ _ _ _ _ Ed)
+      as (oc & f' & Ha & Hpc' & Hfs & Htd & Hi & Hrec & Hpend & Hexc & Hkill & Hdel & Htr & Hmon & _).
+    unfold mon_ok in *. rewrite Hmon, Htr, H. cbn [rev]. rewrite prun_app.
+    destruct (prun pc0 pst_init (rev (c_tr s))) as [p|]; [|reflexivity].
+    cbn [prun]. destruct (pstep pc0 p (o, oc)); reflexivity.
+  Qed.
+
+  Lemma handler_mon s : mon_ok s -> mon_ok (handler cfg inp s).
+  Proof.
+    unfold handler. intros H. destruct (c_kill s); [|destruct (r_proc cfg)];
+      eapply mon_ok_ext; eauto; reflexivity.
+  Qed.
+
+  Ltac mon_do :=
+    match goal with
+    | |- context [do_op pl pc0 ?a ?o] =>
+        let s' := fresh "s'" in let ok := fresh "ok" in let Ed := fresh "Ed" in
+        destruct (do_op pl pc0 a o) as [s' ok] eqn:Ed;
+        let M := fresh "M" in
+        assert (M : mon_ok s') by (eapply do_op_mon; [exact Ed|]; try assumption; eapply mon_ok_ext; eauto; reflexivity);
+        destruct ok
+    end.
+
+  Lemma main_step_mon s : mon_ok s -> mon_ok (main_step cfg inp pl pc0 s).
+  Proof.
+    intros H. unfold main_step.
+    destruct (c_pc s).
+    - destruct (f_final (c_fs s)); [mon_do|]; eapply mon_ok_ext; eauto; reflexivity.
+    - destruct (f_temp (c_fs s)); [mon_do|]; eapply mon_ok_ext; eauto; reflexivity.
+    - mon_do; eapply mon_ok_ext; eauto; reflexivity.
+    - mon_do; eapply mon_ok_ext; eauto; reflexivity.
+    - destruct (negb (c_kill s) && _).
+      + destruct (do_op pl pc0 s OUpExc) as [s' ok] eqn:Ed. apply handler_mon. eapply do_op_mon; eauto.
+      + destruct (c_todo s) as [|[n v] rest].
+        * destruct (c_kill s); [|destruct (r_proc cfg)]; eapply mon_ok_ext; eauto; reflexivity.
+        * destruct (n =? 0); [|destruct (is_async cfg && negb (c_kill s))]; eapply mon_ok_ext; eauto; reflexivity.
+    - mon_do; [eapply mon_ok_ext; eauto; reflexivity | apply handler_mon; assumption].
+    - mon_do; [eapply mon_ok_ext; eauto; reflexivity | apply handler_mon; assumption].
+    - mon_do; [eapply mon_ok_ext; eauto; reflexivity | apply handler_mon; assumption].
+    - destruct (r_var cfg); [|destruct (existsb t_failed (c_pend s))];
+        try (apply handler_mon; assumption); eapply mon_ok_ext; eauto; reflexivity.
+    - destruct (forallb t_done (c_pend s)); [|assumption].
+      destruct (r_var cfg); [|destruct (existsb t_failed (c_pend s))]; eapply mon_ok_ext; eauto; reflexivity.
+    - mon_do; eapply mon_ok_ext; eauto; reflexivity.
+    - mon_do; eapply mon_ok_ext; eauto; reflexivity.
+    - assumption.
+    - assumption.
+  Qed.
+
+  Lemma work_step_mon s j : mon_ok s -> mon_ok (work_step pl pc0 s j).
+  Proof.
+    intros H. unfold work_step. destruct (nth_error (c_pend s) j) as [t|]; [|assumption].
+    destruct (t_st t); try assumption.
+    - destruct (do_op pl pc0 s (OWriteTmp (t_i t) (t_v t))) as [s' ok] eqn:Ed.
+      eapply mon_ok_ext; [| |eapply do_op_mon; eauto]; reflexivity.
+    - destruct (do_op pl pc0 s (ORenameChunk (t_i t))) as [s' ok] eqn:Ed.
+      eapply mon_ok_ext; [| |eapply do_op_mon; eauto]; reflexivity.
+  Qed.
+
+  Lemma run_mon fuel : forall sched s, mon_ok s -> mon_ok (run cfg inp pl pc0 fuel sched s).
+  Proof.
+    induction fuel as [|fuel IH]; intros sched s H; cbn [run]; [assumption|].
+    destruct (terminal s); [assumption|].
+    assert (Hs : forall ch, mon_ok (step cfg inp pl pc0 s ch)).
+    { intros ch. unfold step.
+      assert (Hfb : mon_ok (if main_blocked s
+                            then match first_undone (c_pend s) 0 with
+                                 | Some j => work_step pl pc0 s j
+                                 | None => main_step cfg inp pl pc0 s
+                                 end
+                            else main_step cfg inp pl pc0 s)).
+      { destruct (main_blocked s); [|apply main_step_mon; assumption].
+        destruct (first_undone (c_pend s) 0); [apply work_step_mon | apply main_step_mon]; assumption. }
+      destruct ch as [j|]; [|exact Hfb].
+      destruct (nth_error (c_pend s) j) as [t|]; [|exact Hfb].
+      destruct (t_done t); [exact Hfb | apply work_step_mon; assumption]. }
+    destruct sched; apply IH; apply Hs.
+  Qed.
+End Monitor.
+
+(* ------------------------------------------------------------------------------------------ *)
+(* the theorems about one `Context.make` request                                              *)
+(* ------------------------------------------------------------------------------------------ *)
+
+(* The modes in which the saver keeps to the protocol whatever fails: futures are inspected (Fixed), or
+   there is no thread pool, or no pooled chunk write fails. *)
+Definition safe_mode (cfg : rcfg) (pl : plan) : Prop :=
+  r_var cfg = Fixed \/ is_async cfg = false \/ worker_faultless pl.
+
+Lemma no_faults_faultless : worker_faultless no_faults.
+Proof. intros nf k i v. split; reflexivity. Qed.
+
+Lemma expected_of_nil inp : in_chunks inp <> [] -> expected_of inp <> [].
+Proof. unfold expected_of. destruct (in_chunks inp) as [|[n v] l]; [contradiction | discriminate]. Qed.
+
+Lemma is_stored_false_invisible f : is_stored f = Ok false -> visible f = false.
+Proof.
+  unfold is_stored, visible. destruct (find f) as [m|e]; [discriminate | reflexivity].
+Qed.
+
+Lemma is_stored_true_visible f : is_stored f = Ok true -> visible f = true.
+Proof.
+  unfold is_stored, visible. destruct (find f) as [m|e]; [reflexivity|].
+  destruct (e =? E_NOTAVAIL); discriminate.
+Qed.
+
+Section Request.
+  Variable cfg : rcfg.
+  Variable inp : input.
+  Variable pl : plan.
+  Variable sched : list (option nat).
+  Variable f0 : fs.
+  Hypothesis Hchunks : in_chunks inp <> [].
+  Hypothesis Hok0 : fs_ok (expected_of inp) f0.
+  Let ex := expected_of inp.
+  Let pc0 := pcfg_of cfg inp f0.
+
+  (* the machine state a request ends in, when it runs the saver at all *)
+  Let sfin := run cfg inp pl pc0 (fuel_for inp) sched (init_cst inp f0).
+
+  Hypothesis Hstored : is_stored f0 = Ok false.
+  Hypothesis Hnever : match f_final f0 with Some _ => r_never cfg | None => false end = false.
+
+  Lemma request_runs :
+    request cfg inp pl sched f0 =
+    mkResult (match c_pc sfin with PEnd => if c_exc sfin then Err E_SAVE else Ok tt | _ => Err E_SAVE end)
+      (c_fs sfin) (rev (c_tr sfin)) (match c_mon sfin with Some _ => true | None => false end) (terminal sfin).
+  Proof. unfold request. rewrite Hstored, Hnever. reflexivity. Qed.
+
+  Lemma allow_rm0 : f_final f0 <> None -> p_allow_rm pc0 = true.
+  Proof.
+    intros H. unfold pc0, pcfg_of. cbn. rewrite (is_stored_false_invisible _ Hstored). cbn.
+    destruct (f_final f0); [rewrite Hnever; reflexivity | contradiction].
+  Qed.
+
+  Lemma fuel_enough : (mu inp (init_cst inp f0) <= fuel_for inp)%nat.
+  Proof. unfold mu, fuel_for, init_cst. cbn. lia. Qed.
+
+  Lemma mon_ok0 : mon_ok pc0 (init_cst inp f0).
+  Proof. reflexivity. Qed.
+
+  Lemma sfin_facts : safe_mode cfg pl ->
+    terminal sfin = true /\
+    exists p, c_mon sfin = Some p /\ prun pc0 pst_init (rev (c_tr sfin)) = Some p /\
+      fs_ok ex (c_fs sfin) /\
+      (p_failed p = true -> c_pc sfin = PAbort \/ c_exc sfin = true) /\
+      (c_pc sfin = PEnd -> c_exc sfin = false -> visible (c_fs sfin) = true).
+  Proof.
+    intros Hmode.
+    assert (Hpc0 : p_expected pc0 = expected_of inp) by reflexivity.
+    pose proof (expected_of_nil inp Hchunks) as Hex.
+    assert (I0 : cinv cfg inp pc0 (init_cst inp f0)) by (apply init_cinv; [exact Hok0 | exact allow_rm0]).
+    pose proof (run_inv cfg inp pl pc0 Hpc0 Hex Hmode (fuel_for inp) sched _ I0) as I.
+    pose proof (run_terminates cfg inp pl pc0 Hmode (fuel_for inp) sched _ fuel_enough) as T.
+    fold sfin in I, T. split; [exact T|].
+    destruct (terminal_facts cfg inp pc0 sfin I T) as (p & Hm & Hfs & Hf & Hv).
+    exists p. split; [exact Hm|]. split.
+    - pose proof (run_mon cfg inp pl pc0 (fuel_for inp) sched _ mon_ok0) as M. fold sfin in M.
+      unfold mon_ok in M. rewrite <- M. exact Hm.
+    - auto.
+  Qed.
+End Request.
+
+Definition is_err (r : res unit) : Prop := exists e, r = Err e.
+
+(* fault_safe (+ async_failure_not_swallowed in the safe modes): whatever fails, whatever the schedule,
+   the operations issued follow the protocol, the key ends invisible or visible-and-correct, every failure
+   reaches the caller, and success means visible and correct. *)
+Theorem request_safe cfg inp pl sched f0 :
+  in_chunks inp <> [] -> fs_ok (expected_of inp) f0 -> safe_mode cfg pl ->
+  let r := request cfg inp pl sched f0 in
+  res_fin r = true /\
+  accepts (pcfg_of cfg inp f0) (res_tr r) = true /\
+  fs_ok (expected_of inp) (res_fs r) /\
+  (existsb ev_fail (res_tr r) = true -> is_err (res_out r)) /\
+  (res_out r = Ok tt -> visible (res_fs r) = true /\ loads_correct (expected_of inp) (res_fs r)).
+Proof.
+  intros Hch Hok Hmode. cbn zeta.
+  destruct (is_stored f0) as [[|]|e] eqn:Es.
+  - (* already stored *)
+    unfold request. rewrite Es. cbn.
+    split; [reflexivity|]. split; [reflexivity|]. split; [exact Hok|]. split; [discriminate|].
+    intros _. split; [apply is_stored_true_visible; exact Es | apply (proj2 Hok); apply is_stored_true_visible; exact Es].
+  - destruct (match f_final f0 with Some _ => r_never cfg | None => false end) eqn:En.
+    + (* DataExistsError *)
+      unfold request. rewrite Es, En. cbn.
+      split; [reflexivity|]. split; [reflexivity|]. split; [exact Hok|]. split; discriminate.
+    + rewrite (request_runs cfg inp pl sched f0 Es En). cbn [res_fin res_tr res_fs res_out].
+      destruct (sfin_facts cfg inp pl sched f0 Hch Hok Es En Hmode) as (T & p & Hm & Hp & Hfs & Hf & Hv).
+      set (s := run cfg inp pl (pcfg_of cfg inp f0) (fuel_for inp) sched (init_cst inp f0)) in *.
+      split; [exact T|]. split; [unfold accepts; rewrite Hp; reflexivity|]. split; [exact Hfs|]. split.
+      * intros Hfail. pose proof (prun_failed _ _ _ _ Hp) as Hpf. change (p_failed pst_init) with false in Hpf.
+        cbn [orb] in Hpf. rewrite Hfail in Hpf.
+        destruct (Hf Hpf) as [Ha|He]; [rewrite Ha; eexists; reflexivity|].
+        rewrite He. destruct (c_pc s); eexists; reflexivity.
+      * intros Hout. unfold terminal in T.
+        destruct (c_pc s) eqn:Hpc; try discriminate.
+        destruct (c_exc s) eqn:Hexc; [discriminate|].
+        pose proof (Hv eq_refl eq_refl) as V. split; [exact V | apply (proj2 Hfs V)].
+  - (* is_stored raises: cannot happen in a state reached by this protocol (final_has_meta) *)
+    destruct (is_stored_ok f0 (proj1 Hok)) as [b Hb]. congruence.
+Qed.
+
+(* retry_converges, one request: from any state the protocol can leave behind, an identical request without
+   faults ends visible and correct -- whatever the schedule, for both variants of save_from *)
+Theorem retry_converges_one cfg inp sched f0 :
+  in_chunks inp <> [] -> in_upfail inp = None -> r_never cfg = false ->
+  fs_ok (expected_of inp) f0 ->
+  let r := request cfg inp no_faults sched f0 in
+  res_out r = Ok tt /\ visible (res_fs r) = true /\ loads_correct (expected_of inp) (res_fs r) /\
+  accepts (pcfg_of cfg inp f0) (res_tr r) = true.
+Proof.
+  intros Hch Hup Hnev Hok. cbn zeta.
+  assert (Hmode : safe_mode cfg no_faults) by (right; right; exact no_faults_faultless).
+  destruct (request_safe cfg inp no_faults sched f0 Hch Hok Hmode) as (T & Hacc & Hfs & Hfail & Hout).
+  cbn zeta in *.
+  assert (Hres : res_out (request cfg inp no_faults sched f0) = Ok tt).
+  { destruct (is_stored f0) as [[|]|e] eqn:Es.
+    - unfold request. rewrite Es. reflexivity.
+    - assert (En : match f_final f0 with Some _ => r_never cfg | None => false end = false)
+        by (destruct (f_final f0); auto).
+      rewrite (request_runs cfg inp no_faults sched f0 Es En). cbn [res_out].
+      assert (Hpc0 : p_expected (pcfg_of cfg inp f0) = expected_of inp) by reflexivity.
+      pose proof (expected_of_nil inp Hch) as Hex.
+      assert (I0 : cinv cfg inp (pcfg_of cfg inp f0) (init_cst inp f0))
+        by (apply init_cinv; [exact Hok | apply (allow_rm0 cfg inp f0 Es En)]).
+      assert (N0 : nofail (init_cst inp f0)).
+      { repeat split; cbn; auto; try discriminate. intros p Hp. inversion Hp; reflexivity. }
+      pose proof (run_nf cfg inp no_faults (pcfg_of cfg inp f0) Hpc0 Hex Hmode eq_refl Hup
+                    (fuel_for inp) sched _ I0 N0) as (Hexc & Hna & _).
+      rewrite (request_runs cfg inp no_faults sched f0 Es En) in T. cbn [res_fin] in T.
+      unfold terminal in T.
+      destruct (c_pc (run cfg inp no_faults (pcfg_of cfg inp f0) (fuel_for inp) sched (init_cst inp f0)));
+        try discriminate; [|contradiction].
+      rewrite Hexc. reflexivity.
+    - destruct (is_stored_ok f0 (proj1 Hok)) as [b Hb]. congruence. }
+  split; [exact Hres|]. destruct (Hout Hres) as [V L]. auto.
+Qed.
+
+(* ------------------------------------------------------------------------------------------ *)
+(* retries                                                                                    *)
+(* ------------------------------------------------------------------------------------------ *)
+
+(* one attempt: where processing fails upstream (if at all), what a killed SaverSpy still flushes, which
+   operations fail, how the worker threads are scheduled *)
+Definition attempt := (option nat * list (Z * Z) * plan * list (option nat))%type.
+Definition att_input (chunks : list (Z * Z)) (a : attempt) : input :=
+  mkInput chunks (fst (fst (fst a))) (snd (fst (fst a))).
+Definition att_plan (a : attempt) : plan := snd (fst a).
+Definition att_sched (a : attempt) : list (option nat) := snd a.
+
+Fixpoint retries (cfg : rcfg) (chunks : list (Z * Z)) (atts : list attempt) (f : fs) : fs :=
+  match atts with
+  | [] => f
+  | a :: r => retries cfg chunks r (res_fs (request cfg (att_input chunks a) (att_plan a) (att_sched a) f))
+  end.
+
+Lemma expected_att chunks a : expected_of (att_input chunks a) = number_from 0 chunks.
+Proof. reflexivity. Qed.
+
+Theorem retries_safe cfg chunks atts : forall f0,
+  chunks <> [] -> fs_ok (number_from 0 chunks) f0 ->
+  Forall (fun a => safe_mode cfg (att_plan a)) atts ->
+  fs_ok (number_from 0 chunks) (retries cfg chunks atts f0).
+Proof.
+  induction atts as [|a atts IH]; intros f0 Hch Hok Hall; cbn [retries]; [exact Hok|].
+  inversion Hall as [|x xs Hm Hall']; subst. apply IH; auto.
+  destruct (request_safe cfg (att_input chunks a) (att_plan a) (att_sched a) f0) as (_ & _ & Hfs & _); auto.
+Qed.
+
+(* retry_converges: after any number of attempts with further faults (in a safe mode), the identical
+   request without faults ends visible and correct *)
+Theorem retry_converges cfg chunks atts sched f0 :
+  chunks <> [] -> r_never cfg = false -> fs_ok (number_from 0 chunks) f0 ->
+  Forall (fun a => safe_mode cfg (att_plan a)) atts ->
+  let f1 := retries cfg chunks atts f0 in
+  let r := request cfg (mkInput chunks None []) no_faults sched f1 in
+  fs_ok (number_from 0 chunks) f1 /\
+  res_out r = Ok tt /\ visible (res_fs r) = true /\ loads_correct (number_from 0 chunks) (res_fs r).
+Proof.
+  intros Hch Hnev Hok Hall. cbn zeta.
+  pose proof (retries_safe cfg chunks atts f0 Hch Hok Hall) as H1. split; [exact H1|].
+  destruct (retry_converges_one cfg (mkInput chunks None []) sched (retries cfg chunks atts f0)) as (A & B & C & _); auto.
+Qed.
+
+(* ------------------------------------------------------------------------------------------ *)
+(* async_failure_not_swallowed                                                                *)
+(* ------------------------------------------------------------------------------------------ *)
+
+(* A failed operation -- a pooled chunk write included -- makes the request end with an error for the caller,
+   with a trace the protocol accepts (so `exception` is recorded before the directory can be renamed), and
+   never with wrong data visible. *)
+Definition not_swallowed (cfg : rcfg) (pl : plan) : Prop :=
+  forall inp sched f0,
+    in_chunks inp <> [] -> fs_ok (expected_of inp) f0 ->
+    let r := request cfg inp pl sched f0 in
+    existsb ev_fail (res_tr r) = true ->
+    is_err (res_out r) /\
+    accepts (pcfg_of cfg inp f0) (res_tr r) = true /\
+    (visible (res_fs r) = true -> loads_correct (expected_of inp) (res_fs r)).
+
+Theorem not_swallowed_safe cfg pl : safe_mode cfg pl -> not_swallowed cfg pl.
+Proof.
+  intros Hmode inp sched f0 Hch Hok. cbn zeta. intros Hfail.
+  destruct (request_safe cfg inp pl sched f0 Hch Hok Hmode) as (_ & Hacc & Hfs & Herr & _).
+  split; [apply Herr; exact Hfail|]. split; [exact Hacc | apply (proj2 Hfs)].
+Qed.
+
+Theorem not_swallowed_fixed proc pool never pl : not_swallowed (mkRcfg Fixed proc pool never) pl.
+Proof. apply not_swallowed_safe. left. reflexivity. Qed.
+
+(* the pinned save_from: true as long as no pooled write fails (or there is no pool) ... *)
+Theorem not_swallowed_pinned_partial proc pool never pl :
+  (is_async (mkRcfg Pinned proc pool never) = false \/ worker_faultless pl) ->
+  not_swallowed (mkRcfg Pinned proc pool never) pl.
+Proof. intros H. apply not_swallowed_safe. right. exact H. Qed.
+
+(* ... and false otherwise: thread-pool saving, two chunks, the write of chunk 1 raises on its worker thread.
+   Context.make returns normally, `writing_ended` is written without `exception`, the key is visible, loading
+   fails with FileNotFoundError (D3). *)
+Definition d3_cfg : rcfg := mkRcfg Pinned Threaded true false.
+Definition d3_inp : input := mkInput [(2, 100); (2, 101)] None [].
+Definition d3_plan : plan := single_fault (OWriteTmp 1 101) ENone.
+
+Theorem not_swallowed_pinned_refuted :
+  exists inp sched f0,
+    in_chunks inp <> [] /\ fs_ok (expected_of inp) f0 /\
+    let r := request d3_cfg inp d3_plan sched f0 in
+    existsb ev_fail (res_tr r) = true /\
+    res_out r = Ok tt /\
+    accepts (pcfg_of d3_cfg inp f0) (res_tr r) = false /\
+    visible (res_fs r) = true /\
+    load (res_fs r) = Err E_NOFILE.
+Proof.
+  exists d3_inp, [], fs_empty.
+  split; [discriminate|]. split; [apply fs_ok_no_final; reflexivity|].
+  vm_compute. repeat split; reflexivity.
+Qed.
+
+Corollary not_swallowed_pinned_false : ~ not_swallowed d3_cfg d3_plan.
+Proof.
+  intros H. destruct not_swallowed_pinned_refuted as (inp & sched & f0 & Hch & Hok & Hr).
+  cbn zeta in Hr. destruct Hr as (Hfail & Hout & _).
+  destruct (H inp sched f0 Hch Hok Hfail) as ([e He] & _). congruence.
+Qed.
+
+(* the same failure with the futures inspected: an error for the caller, `exception` recorded, invisible *)
+Example d3_fixed :
+  let r := request (mkRcfg Fixed Threaded true false) d3_inp d3_plan [] fs_empty in
+  res_out r = Err E_SAVE /\ res_acc r = true /\ visible (res_fs r) = false /\
+  match f_final (res_fs r) with
+  | Some d => dlookup d FMeta = Some (CMeta (Some (mkMeta [(0, 2); (1, 2)] true true)))
+  | None => False
+  end.
+Proof. vm_compute. repeat split; reflexivity. Qed.
+
+(* the hypotheses of the theorems are satisfiable / the runs are not trivial *)
+Example ex_serial_fault_then_retry :
+  let cfg := mkRcfg Pinned SingleThread false false in
+  let chunks := [(2, 100); (0, 0); (3, 102)] in
+  (* the rename of chunk 2 fails; SaverSpy.close (kill) still flushes a remainder chunk; then a retry *)
+  let a : attempt := (None, [(1, 103)], single_fault (ORenameChunk 2) ENone, []) in
+  let r1 := request cfg (att_input chunks a) (att_plan a) (att_sched a) fs_empty in
+  let r2 := request cfg (mkInput chunks None []) no_faults [] (res_fs r1) in
+  res_out r1 = Err E_SAVE /\ visible (res_fs r1) = false /\ f_final (res_fs r1) <> None /\
+  res_out r2 = Ok tt /\ load (res_fs r2) = Ok [Some 100; None; Some 102] /\
+  hd_error (res_tr r2) = Some (ORmFinal, Done).
+Proof. vm_compute. repeat split; try reflexivity. discriminate. Qed.
+
+Example ex_async_interleaved :
+  let cfg := mkRcfg Fixed Threaded true false in
+  let r := request cfg (mkInput [(2, 100); (2, 101); (1, 102)] None []) no_faults
+             [None; None; None; None; None; None; Some 0%nat; None; Some 1%nat; Some 0%nat; None; None; Some 1%nat] fs_empty in
+  res_out r = Ok tt /\ res_acc r = true /\ load (res_fs r) = Ok [Some 100; Some 101; Some 102].
+Proof. vm_compute. repeat split; reflexivity. Qed.
